@@ -595,36 +595,42 @@ open OsmoVerif.World.Sched
 example : Initial 0 (demoState 100) ∧ Initial 1 (demoState 100) :=
   ⟨⟨rfl, by decide +kernel⟩, ⟨rfl, by decide +kernel⟩⟩
 
-/-- a tick without interference: after the three arrivals and 13 clock actions the clock thread is
-idle again, with the same outcomes as the sequential tick -/
+/-- a tick without interference: after the three arrivals and 14 clock actions (begin | read, locked
+section of transceiver 0 | fwd-begin, fwd-read of 0 (itself), fwd-read of 1, fwd-handle of 1, fwd-end |
+stale | done | read, locked section, done of transceiver 1 | incr) the clock thread is idle again, with
+the same outcomes as the sequential tick; not before -/
 example :
-    (exec (demoState 100) (demoArrivalActs ++ clks 13)).pc = Pc.idle ∧
-    (sghost (demoState 100) (demoArrivalActs ++ clks 13) 0).g.log =
+    (exec (demoState 100) (demoArrivalActs ++ clks 14)).pc = Pc.idle ∧
+    (exec (demoState 100) (demoArrivalActs ++ clks 13)).pc = Pc.next 100 [] ∧
+    (sghost (demoState 100) (demoArrivalActs ++ clks 14) 0).g.log =
       (ghost (demoWorld 100) (demoArrivals ++ [Op.tick]) 0).log ∧
-    (sghost (demoState 100) (demoArrivalActs ++ clks 13) 0).g.ids = [2] ∧
-    (exec (demoState 100) (demoArrivalActs ++ clks 13)).w.clkSrc = some 101 ∧
-    (exec (demoState 100) (demoArrivalActs ++ clks 13)).stale = 1 := by
+    (sghost (demoState 100) (demoArrivalActs ++ clks 14) 0).g.ids = [2] ∧
+    (exec (demoState 100) (demoArrivalActs ++ clks 14)).w.clkSrc = some 101 ∧
+    (exec (demoState 100) (demoArrivalActs ++ clks 14)).out = (tick (run (demoWorld 100) demoArrivals).1).out ∧
+    (exec (demoState 100) (demoArrivalActs ++ clks 14)).stale = 1 := by
   decide +kernel
 
 /-- POWEROFF racing the tick, after the locked section (3 clock actions: begin, read `running`,
 locked section): the waiting burst 2 is cleared, the due burst 0 is STILL emitted in frame 100 and
 forwarded to the peer (one datagram), the passed burst 1 is still reported stale; transceiver 0 is
-not running any more -/
+not running any more; the tick is over after 11 more clock actions -/
 example :
     (exec (demoState 100) (demoArrivalActs ++ clks 3)).pc = Pc.loop 100 0 [demoMsg 100] [demoMsg 90] [1] ∧
-    (sghost (demoState 100) (demoArrivalActs ++ clks 3 ++ [Act.ctrl 0 5800 demoPoweroff] ++ clks 12) 0).g.log.drop 3 =
+    (sghost (demoState 100) (demoArrivalActs ++ clks 3 ++ [Act.ctrl 0 5800 demoPoweroff] ++ clks 11) 0).g.log.drop 3 =
       [Event.cleared 2, Event.emitted 0 100, Event.stale 1 100] ∧
-    (exec (demoState 100) (demoArrivalActs ++ clks 3 ++ [Act.ctrl 0 5800 demoPoweroff] ++ clks 12)).out.length = 1 ∧
-    runningOf (exec (demoState 100) (demoArrivalActs ++ clks 3 ++ [Act.ctrl 0 5800 demoPoweroff] ++ clks 12)).w 0 = false := by
+    (exec (demoState 100) (demoArrivalActs ++ clks 3 ++ [Act.ctrl 0 5800 demoPoweroff] ++ clks 11)).pc = Pc.idle ∧
+    (exec (demoState 100) (demoArrivalActs ++ clks 3 ++ [Act.ctrl 0 5800 demoPoweroff] ++ clks 11)).out.length = 1 ∧
+    runningOf (exec (demoState 100) (demoArrivalActs ++ clks 3 ++ [Act.ctrl 0 5800 demoPoweroff] ++ clks 11)).w 0 = false := by
   decide +kernel
 
 /-- POWEROFF racing the tick, between the read of `running` and the locked section: everything is
-cleared, the locked section finds an empty queue, nothing is emitted -/
+cleared, the locked section finds an empty queue, nothing is emitted (6 more clock actions) -/
 example :
     (exec (demoState 100) (demoArrivalActs ++ clks 2)).pc = Pc.lock 100 0 [1] ∧
-    (sghost (demoState 100) (demoArrivalActs ++ clks 2 ++ [Act.ctrl 0 5800 demoPoweroff] ++ clks 12) 0).g.log.drop 3 =
+    (sghost (demoState 100) (demoArrivalActs ++ clks 2 ++ [Act.ctrl 0 5800 demoPoweroff] ++ clks 6) 0).g.log.drop 3 =
       [Event.cleared 0, Event.cleared 1, Event.cleared 2] ∧
-    (exec (demoState 100) (demoArrivalActs ++ clks 2 ++ [Act.ctrl 0 5800 demoPoweroff] ++ clks 12)).out.length = 0 := by
+    (exec (demoState 100) (demoArrivalActs ++ clks 2 ++ [Act.ctrl 0 5800 demoPoweroff] ++ clks 6)).pc = Pc.idle ∧
+    (exec (demoState 100) (demoArrivalActs ++ clks 2 ++ [Act.ctrl 0 5800 demoPoweroff] ++ clks 6)).out.length = 0 := by
   decide +kernel
 
 /-- an arrival racing the tick: the burst for frame 100 arrives after the locked section of tick
